@@ -1,6 +1,10 @@
 // C17: retransmission schedules are exact under any tick timing.
 //
-// Op line:  <std|backoff> <b1,b2,...> <post>
+// Op line:  <std|backoff> <b1,b2,...> <post> [<errs> <blocks>]
+//
+//	errs / blocks: comma lists (- = none) of 1-based retransmitFn invocation numbers that
+//	return an error / that block inside retransmitFn until the following burst has completely
+//	been handled (a slow publish overlapping later ticks). Neither may influence the schedule.
 //
 //	one complete history of one scheduled message: the ticker delivers bursts of
 //	b1, b2, ... ticks; all tick goroutines of one burst are held at a barrier just
@@ -22,6 +26,7 @@ import (
 	"os"
 	"path/filepath"
 	"runtime"
+	"sort"
 	"strconv"
 	"strings"
 	"sync"
@@ -76,7 +81,31 @@ func gen(r *hx.Rng, n int, tier string) []string {
 		if r.Chance(1, 2) {
 			post = r.Range(1, 5)
 		}
-		ops = append(ops, fmt.Sprintf("%s %s %d", strat, hx.JoinInts(bursts), post))
+		op := fmt.Sprintf("%s %s %d", strat, hx.JoinInts(bursts), post)
+		if r.Chance(2, 5) {
+			pick := func(max, cnt int) []int {
+				seen := map[int]bool{}
+				var out []int
+				for j := 0; j < cnt; j++ {
+					v := r.Range(1, max)
+					if !seen[v] {
+						seen[v] = true
+						out = append(out, v)
+					}
+				}
+				sort.Ints(out)
+				return out
+			}
+			var errs, blocks []int
+			if r.Chance(2, 3) {
+				errs = pick(7, r.Range(1, 3))
+			}
+			if r.Chance(1, 2) {
+				blocks = pick(6, r.Range(1, 2))
+			}
+			op += " " + hx.JoinInts(errs) + " " + hx.JoinInts(blocks)
+		}
+		ops = append(ops, op)
 		if r.Chance(1, 12) {
 			ops = append(ops, fmt.Sprintf("teardown %d", r.Range(1, 32)))
 		}
@@ -127,10 +156,29 @@ func (c *counting) Tick(fn retransmission.RetransmitFn) error {
 	return nil
 }
 
+// A wait that times out is an observation ("stall:<where>"), never a verdict of the harness.
+// After the first timeout of an op its remaining waits give up at once, and after a few stalled
+// ops in one process the patience drops (a change that loses ticks stalls almost every op).
+var (
+	opStalled    int32
+	stalledOps   int32
+	stallTimeout = 3 * time.Second
+)
+
 func waitFor(cond func() bool) bool {
-	deadline := time.Now().Add(6 * time.Second)
+	to := stallTimeout
+	if atomic.LoadInt32(&stalledOps) >= 6 {
+		to = 150 * time.Millisecond
+	}
+	if atomic.LoadInt32(&opStalled) != 0 {
+		to = 20 * time.Millisecond
+	}
+	deadline := time.Now().Add(to)
 	for i := 0; !cond(); i++ {
 		if time.Now().After(deadline) {
+			if atomic.CompareAndSwapInt32(&opStalled, 0, 1) {
+				atomic.AddInt32(&stalledOps, 1)
+			}
 			return false
 		}
 		if i < 200 {
@@ -140,6 +188,18 @@ func waitFor(cond func() bool) bool {
 		}
 	}
 	return true
+}
+
+// settle waits (bounded) for leftover goroutines of the op; its outcome is not observed.
+func settle(cond func() bool) {
+	to := time.Second
+	if atomic.LoadInt32(&opStalled) != 0 {
+		to = 20 * time.Millisecond
+	}
+	deadline := time.Now().Add(to)
+	for !cond() && time.Now().Before(deadline) {
+		time.Sleep(100 * time.Microsecond)
+	}
 }
 
 // race detector log (GORACE log_path=<p> writes <p>.<pid>): its growth during one op
@@ -196,7 +256,7 @@ func execTeardown(arg string) (string, string) {
 	}()
 	close(gate)
 	wg.Wait()
-	waitFor(func() bool { return runtime.NumGoroutine() <= base })
+	settle(func() bool { return runtime.NumGoroutine() <= base })
 	if raceLogSize() != race0 {
 		obs += " RACE"
 	}
@@ -204,12 +264,25 @@ func execTeardown(arg string) (string, string) {
 }
 
 func exec(op string) (string, string) {
+	atomic.StoreInt32(&opStalled, 0)
 	f := strings.Fields(op)
 	if len(f) == 2 && f[0] == "teardown" {
 		return execTeardown(f[1])
 	}
-	if len(f) != 3 || (f[0] != "std" && f[0] != "backoff") {
+	if (len(f) != 3 && len(f) != 5) || (f[0] != "std" && f[0] != "backoff") {
 		return "bad-op", "bad"
+	}
+	errAt, blockAt := map[int64]bool{}, map[int64]bool{}
+	if len(f) == 5 {
+		for i, m := range []map[int64]bool{errAt, blockAt} {
+			for _, t := range hx.SplitList(f[3+i]) {
+				v, err := strconv.ParseUint(t, 10, 32)
+				if err != nil || v < 1 || v > 4096 {
+					return "bad-op", "bad"
+				}
+				m[int64(v)] = true
+			}
+		}
 	}
 	var bursts []int
 	for _, t := range hx.SplitList(f[1]) {
@@ -243,9 +316,28 @@ func exec(op string) (string, string) {
 	sctx, scancel := context.WithCancel(context.Background())
 	defer scancel()
 
-	var retransmits int64
+	var retransmits, blockedNow, burstNo int64
+	var relMu sync.Mutex
+	release := map[int64]chan struct{}{} // burst number at entry -> released when the next burst is done
+	relChan := func(k int64) chan struct{} {
+		relMu.Lock()
+		defer relMu.Unlock()
+		if release[k] == nil {
+			release[k] = make(chan struct{})
+		}
+		return release[k]
+	}
 	retransmit := func() error {
-		atomic.AddInt64(&retransmits, 1)
+		k := atomic.AddInt64(&retransmits, 1)
+		if blockAt[k] && atomic.LoadInt32(&w.cancelled) == 0 {
+			ch := relChan(atomic.LoadInt64(&burstNo))
+			atomic.AddInt64(&blockedNow, 1)
+			<-ch
+			atomic.AddInt64(&blockedNow, -1)
+		}
+		if errAt[k] {
+			return fmt.Errorf("verif: publish failed")
+		}
 		return nil
 	}
 	retransmission.ScheduleRetransmissions(ctx, logger, ticker, retransmit, w)
@@ -268,6 +360,7 @@ func exec(op string) (string, string) {
 		}
 		g := make(chan struct{})
 		w.setGate(g)
+		bn := atomic.AddInt64(&burstNo, 1)
 		for j := 0; j < b; j++ {
 			tickNo++
 			ticks <- tickNo
@@ -277,10 +370,16 @@ func exec(op string) (string, string) {
 			stall = "arrive"
 		}
 		close(g)
-		if !waitFor(func() bool { return atomic.LoadInt64(&w.done) == total }) {
+		if !waitFor(func() bool { return atomic.LoadInt64(&w.done)+atomic.LoadInt64(&blockedNow) == total }) {
 			stall = "done"
 		}
 		cum = append(cum, atomic.LoadInt64(&retransmits))
+		close(relChan(bn - 1)) // a publish that blocked during the previous burst returns now
+	}
+	// every blocked publish returns before the cancellation
+	close(relChan(atomic.LoadInt64(&burstNo)))
+	if stall == "" && !waitFor(func() bool { return atomic.LoadInt64(&w.done) == total }) {
+		stall = "unblock"
 	}
 	if post > 0 && stall == "" {
 		atomic.StoreInt32(&w.cancelled, 1)
@@ -296,7 +395,7 @@ func exec(op string) (string, string) {
 	scancel()
 	cancel()
 	close(ticks)
-	waitFor(func() bool { return runtime.NumGoroutine() <= base })
+	settle(func() bool { return runtime.NumGoroutine() <= base })
 
 	st := "-"
 	if bos, ok := strategy.(*retransmission.BackoffStrategy); ok {
@@ -329,6 +428,22 @@ func exec(op string) (string, string) {
 		}
 		if len(cum) > 0 && cum[len(cum)-1] >= 4 {
 			tag += "+deep"
+		}
+		last := int64(0)
+		if len(cum) > 0 {
+			last = cum[len(cum)-1]
+		}
+		for k := range errAt {
+			if k <= last {
+				tag += "+error"
+				break
+			}
+		}
+		for k := range blockAt {
+			if k <= last {
+				tag += "+slow"
+				break
+			}
 		}
 	}
 	return obs, tag
